@@ -9,6 +9,7 @@
 from __future__ import annotations
 
 import logging
+import math
 from abc import ABC, abstractmethod
 from dataclasses import dataclass
 from typing import TYPE_CHECKING
@@ -397,9 +398,13 @@ class MIOArchive(Archive):
                     assert chop_position is not None
                     solution_clone.test_case.chop(chop_position)
                 covered_before = self._archive[target].is_covered
-                updated |= self._archive[target].add_solution(
-                    1.0 - normalise(fitness_value), solution_clone
-                )
+                h_value = 1.0 - normalise(fitness_value)
+                if fitness_value > 0.0 and h_value >= 1.0:
+                    # A tiny, but non-zero, fitness value (e.g., a float comparison that
+                    # is missed by less than 1e-16) must not round to h = 1.0, because
+                    # h = 1.0 means that the target is covered.
+                    h_value = math.nextafter(1.0, 0.0)
+                updated |= self._archive[target].add_solution(h_value, solution_clone)
                 # The goal was covered with this solution
                 # TODO(fk) replace with goal.is_covered?
                 if not covered_before and self._archive[target].is_covered:
